@@ -100,6 +100,182 @@ Example C02_example :
   = Done [(0, (None, 7)); (1, (Some 7, 8))].
 Proof. vm_compute. auto. Qed.
 
+(* ======================================================================================================
+   (X12) EVERY window, 0 included, and the two-series entry points in every combination of lengths.
+   `bad_window w xs` = (w = 0 and xs non-empty) - the assertion `window > 0 || len == 0`.  The statements
+   are equalities between the entry point and a closed form with the panics in the order of the code.     *)
+Theorem C02_every_window_returned :
+  forall (T St O : Type) (w : nat) (f : St -> option T * T -> St * O) (s0 : St) (xs : list T),
+    rolling_apply_default w f s0 xs =
+    if bad_window w xs then Panicked AssertFail
+    else Done (run f s0 (mapi (fun i v => (removed w xs i, v)) xs)).
+Proof. exact @rolling_apply_default_total. Qed.
+
+Theorem C02_every_window_buffer :
+  forall (T St O : Type) (w : nat) (f : St -> option T * T -> St * O) (s0 : St) (xs : list T),
+    rolling_apply_to w f s0 xs =
+    if bad_window w xs then Panicked AssertFail
+    else Done (run f s0 (mapi (fun i v => (removed_to w xs i, v)) xs)).
+Proof. exact @rolling_apply_to_total. Qed.
+
+Theorem C02_every_window_idx_returned :
+  forall (T St O : Type) (w : nat) (f : St -> option nat * nat * T -> St * O) (s0 : St) (xs : list T),
+    rolling_apply_idx_default w f s0 xs =
+    if bad_window w xs then Panicked AssertFail
+    else Done (run f s0 (mapi (fun i v => (start_of w i, i, v)) xs)).
+Proof. exact @rolling_apply_idx_default_total. Qed.
+
+Theorem C02_every_window_idx_buffer :
+  forall (T St O : Type) (w : nat) (f : St -> option nat * nat * T -> St * O) (s0 : St) (xs : list T),
+    rolling_apply_idx_to w f s0 xs =
+    if bad_window w xs then Panicked AssertFail
+    else Done (run f s0 (mapi (fun i v => (start_of (Nat.min w (length xs)) i, i, v)) xs)).
+Proof. exact @rolling_apply_idx_to_total. Qed.
+
+(* slice forms: the returned path computes `window - 1` first - underflow at window 0 even on an empty series *)
+Theorem C02_every_window_slice_returned :
+  forall (T St O : Type) (w : nat) (f : St -> list T -> St * O) (s0 : St) (xs : list T),
+    rolling_custom_default w f s0 xs =
+    if w =? 0 then Panicked Underflow else Done (run f s0 (windows w xs)).
+Proof. exact @rolling_custom_default_total. Qed.
+
+Theorem C02_every_window_slice_buffer :
+  forall (T St O : Type) (w : nat) (f : St -> list T -> St * O) (s0 : St) (xs : list T),
+    rolling_custom_to w f s0 xs =
+    if bad_window w xs then Panicked AssertFail else Done (run f s0 (windows w xs)).
+Proof. exact @rolling_custom_to_total. Qed.
+
+Theorem C02_bodies_agree_every_window :
+  forall (T St O : Type) (pre : St -> T -> St) (emit : St -> O) (post : St -> option T -> St)
+         (w : nat) (s0 : St) (xs : list T),
+    rolling_apply_to w (aer pre emit post) s0 xs = rolling_apply_default w (aer pre emit post) s0 xs.
+Proof. exact @rolling_apply_bodies_agree_total. Qed.
+
+(* ---- two series.  Returned path (default trait method): the window is asserted on the FIRST series only,
+   then the two series are zipped (one call per pair, the result has min(len xs, len ys) entries). ---- *)
+Theorem C02_two_series_returned :
+  forall (T1 T2 St O : Type) (w : nat) (f : St -> option (T1 * T2) * (T1 * T2) -> St * O) (s0 : St)
+         (xs : list T1) (ys : list T2),
+    rolling2_apply_default w f s0 xs ys =
+    if bad_window w xs then Panicked AssertFail
+    else Done (run f s0 (mapi (fun i v => (removed w (combine xs ys) i, v)) (combine xs ys))).
+Proof. exact @rolling2_apply_default_total. Qed.
+
+(* caller buffer / Vec, ndarray fast path: `other.len() >= len` is asserted first, then the window *)
+Theorem C02_two_series_buffer :
+  forall (T1 T2 St O : Type) (w : nat) (f : St -> option (T1 * T2) * (T1 * T2) -> St * O) (s0 : St)
+         (xs : list T1) (ys : list T2),
+    rolling2_apply_to w f s0 xs ys =
+    if length ys <? length xs then Panicked AssertFail
+    else if bad_window w xs then Panicked AssertFail
+    else Done (run f s0 (mapi (fun i v => (removed_to w (combine xs ys) i, v)) (combine xs ys))).
+Proof. exact @rolling2_apply_to_total. Qed.
+
+Theorem C02_two_series_idx_returned :
+  forall (T1 T2 St O : Type) (w : nat) (f : St -> option nat * nat * (T1 * T2) -> St * O) (s0 : St)
+         (xs : list T1) (ys : list T2),
+    rolling2_apply_idx_default w f s0 xs ys =
+    if bad_window w xs then Panicked AssertFail
+    else Done (run f s0 (mapi (fun i v => (start_of w i, i, v)) (combine xs ys))).
+Proof. exact @rolling2_apply_idx_default_total. Qed.
+
+Theorem C02_two_series_idx_buffer :
+  forall (T1 T2 St O : Type) (w : nat) (f : St -> option nat * nat * (T1 * T2) -> St * O) (s0 : St)
+         (xs : list T1) (ys : list T2),
+    rolling2_apply_idx_to w f s0 xs ys =
+    if length ys <? length xs then Panicked AssertFail
+    else if bad_window w xs then Panicked AssertFail
+    else Done (run f s0 (mapi (fun i v => (start_of (Nat.min w (length (combine xs ys))) i, i, v))
+                              (combine xs ys))).
+Proof. exact @rolling2_apply_idx_to_total. Qed.
+
+(* rolling2_custom (both paths): the lengths, then `window - 1`; the callback gets the two windows *)
+Theorem C02_two_series_slice :
+  forall (T1 T2 St O : Type) (w : nat) (f : St -> list T1 * list T2 -> St * O) (s0 : St)
+         (xs : list T1) (ys : list T2),
+    rolling2_custom_default w f s0 xs ys =
+    if length ys <? length xs then Panicked AssertFail
+    else if w =? 0 then Panicked Underflow
+    else Done (run f s0 (map (fun i => (win w i xs, win w i ys)) (seq 0 (length xs)))).
+Proof. exact @rolling2_custom_default_total. Qed.
+
+(* the start iterator of rolling2_apply_idx counts to len SELF; zipped it is the one-series argument list *)
+Theorem C02_two_series_start_iterator :
+  forall (T1 T2 : Type) (w : nat) (xs : list T1) (ys : list T2),
+    args_iter_idx2 w xs ys = args_iter_idx w (combine xs ys).
+Proof. exact @args_iter_idx2_eq. Qed.
+
+(* where "the window check on the zipped series" (the model before X12) and the check of the code differ *)
+Theorem C02_window_check_first_vs_zipped :
+  forall (T1 T2 : Type) (w : nat) (xs : list T1) (ys : list T2),
+    bad_window w (combine xs ys) <> bad_window w xs <-> w = 0 /\ xs <> [] /\ ys = [].
+Proof. exact @bad_window_combine_differs. Qed.
+
+Theorem C02_two_series_returned_window0 :
+  forall (T1 T2 St O : Type) (f : St -> option (T1 * T2) * (T1 * T2) -> St * O)
+         (g : St -> option nat * nat * (T1 * T2) -> St * O) (s0 : St) (xs : list T1) (ys : list T2),
+    xs <> [] ->
+    rolling2_apply_default 0 f s0 xs ys = Panicked AssertFail /\
+    rolling2_apply_idx_default 0 g s0 xs ys = Panicked AssertFail.
+Proof.
+  intros; split; [apply rolling2_apply_default_window0|apply rolling2_apply_idx_default_window0]; assumption.
+Qed.
+
+(* the first failing check, in the order of the code (compared with the panic MESSAGE by the harness) *)
+Theorem C02_two_series_check_returned :
+  forall (T1 T2 : Type) (w : nat) (xs : list T1) (ys : list T2),
+    (check2_default w xs ys = Some GWindow <-> w = 0 /\ xs <> []) /\
+    (check2_default w xs ys = None <-> 1 <= w \/ xs = []).
+Proof. exact @check2_default_spec. Qed.
+
+Theorem C02_two_series_check_buffer :
+  forall (T1 T2 : Type) (w : nat) (xs : list T1) (ys : list T2),
+    (check2_to w xs ys = Some GShorter <-> length ys < length xs) /\
+    (check2_to w xs ys = Some GWindow <-> length xs <= length ys /\ w = 0 /\ xs <> []) /\
+    (check2_to w xs ys = None <-> length xs <= length ys /\ (1 <= w \/ xs = [])).
+Proof. exact @check2_to_spec. Qed.
+
+Theorem C02_two_series_bodies_agree :
+  forall (T1 T2 St O : Type) (pre : St -> T1 * T2 -> St) (emit : St -> O) (post : St -> option (T1 * T2) -> St)
+         (w : nat) (s0 : St) (xs : list T1) (ys : list T2),
+    length xs <= length ys ->
+    rolling2_apply_to w (aer pre emit post) s0 xs ys = rolling2_apply_default w (aer pre emit post) s0 xs ys.
+Proof. intros; apply rolling2_apply_bodies_agree; assumption. Qed.
+
+Theorem C02_two_series_idx_bodies_agree :
+  forall (T1 T2 St O : Type) (pre : St -> nat -> T1 * T2 -> St) (emit : St -> O) (post : St -> option nat -> St)
+         (w : nat) (s0 : St) (xs : list T1) (ys : list T2),
+    w <= length xs <= length ys ->
+    rolling2_apply_idx_to w (aer_idx pre emit post) s0 xs ys
+    = rolling2_apply_idx_default w (aer_idx pre emit post) s0 xs ys.
+Proof. intros; apply rolling2_apply_idx_bodies_agree; assumption. Qed.
+
+(* a shorter second series is where the two paths differ by design *)
+Theorem C02_two_series_shorter_second :
+  forall (T1 T2 St O : Type) (w : nat) (f : St -> option (T1 * T2) * (T1 * T2) -> St * O) (s0 : St)
+         (xs : list T1) (ys : list T2),
+    length ys < length xs -> 1 <= w ->
+    rolling2_apply_to w f s0 xs ys = Panicked AssertFail /\
+    exists l, rolling2_apply_default w f s0 xs ys = Done l /\ length l = length ys.
+Proof. intros; apply rolling2_shorter_second; assumption. Qed.
+
+(* non-vacuity of the X12 implications; the corner the model had wrong: window 0, empty second series *)
+Example C02_example_two_series :
+  let f := fun (s : nat) (a : option (nat * nat) * (nat * nat)) => (s + 1, (s, a)) in
+  let g := fun (s : nat) (a : option nat * nat * (nat * nat)) => (s + 1, (s, a)) in
+  rolling2_apply_default 0 f 0 [7; 8] (@nil nat) = Panicked AssertFail
+  /\ rolling2_apply_idx_default 0 g 0 [7; 8] (@nil nat) = Panicked AssertFail
+  /\ rolling2_apply_default 0 f 0 (@nil nat) [1] = Done []
+  /\ rolling2_apply_default 2 f 0 [7; 8; 9] [1; 2] = Done [(0, (None, (7, 1))); (1, (Some (7, 1), (8, 2)))]
+  /\ rolling2_apply_to 2 f 0 [7; 8; 9] [1; 2] = Panicked AssertFail
+  /\ rolling2_apply_to 2 f 0 [7; 8] [1; 2; 3] = Done [(0, (None, (7, 1))); (1, (Some (7, 1), (8, 2)))]
+  /\ rolling2_apply_idx_to 1 g 0 [7; 8] [1; 2; 3] = rolling2_apply_idx_default 1 g 0 [7; 8] [1; 2; 3]
+  /\ (bad_window 0 (combine [7] (@nil nat)) = false /\ bad_window 0 [7] = true)
+  /\ check2_to 0 [7; 8] [1] = Some GShorter /\ check2_to 0 [7; 8] [1; 2] = Some GWindow
+  /\ check2_default 0 [7; 8] [1] = Some GWindow /\ check2_custom 0 (@nil nat) (@nil nat) = Some GUnderflow
+  /\ rolling_custom_default 0 (fun (s : nat) (l : list nat) => (s, l)) 0 (@nil nat) = Panicked Underflow.
+Proof. vm_compute. repeat split. Qed.
+
 Print Assumptions C02_once_in_order_returned.
 Print Assumptions C02_once_in_order_buffer.
 Print Assumptions C02_once_in_order_idx_returned.
@@ -113,3 +289,23 @@ Print Assumptions C02_output_placement.
 Print Assumptions C02_output_length.
 Print Assumptions C02_bodies_same_removed.
 Print Assumptions C02_bodies_agree.
+Print Assumptions C02_every_window_returned.
+Print Assumptions C02_every_window_buffer.
+Print Assumptions C02_every_window_idx_returned.
+Print Assumptions C02_every_window_idx_buffer.
+Print Assumptions C02_every_window_slice_returned.
+Print Assumptions C02_every_window_slice_buffer.
+Print Assumptions C02_bodies_agree_every_window.
+Print Assumptions C02_two_series_returned.
+Print Assumptions C02_two_series_buffer.
+Print Assumptions C02_two_series_idx_returned.
+Print Assumptions C02_two_series_idx_buffer.
+Print Assumptions C02_two_series_slice.
+Print Assumptions C02_two_series_start_iterator.
+Print Assumptions C02_window_check_first_vs_zipped.
+Print Assumptions C02_two_series_returned_window0.
+Print Assumptions C02_two_series_check_returned.
+Print Assumptions C02_two_series_check_buffer.
+Print Assumptions C02_two_series_bodies_agree.
+Print Assumptions C02_two_series_idx_bodies_agree.
+Print Assumptions C02_two_series_shorter_second.
